@@ -218,6 +218,28 @@ pub fn documents(tier: Tier) -> Vec<Doc> {
     {
         base.push(("gen:numbers".into(), "number-edges".into(), v));
     }
+    // every high surrogate x three low surrogates (3072 code points of planes 1..16) as story
+    // text, a tag and a choice: in the "escaped" serialisations each is written as a \uXXXX\uXXXX
+    // pair, so every bit pattern of the pair arithmetic is exercised
+    if let CompileOutcome::Ok(p) = Prog::from_source("planes", "MARKA\n# MARKB\n* MARKC\n- -> END\n") {
+        let mut all = String::new();
+        let mut some = String::new();
+        for hi in 0xD800u32..0xDC00 {
+            for lo in [0xDC00u32, 0xDEB7, 0xDFFF] {
+                let cp = 0x10000 + ((hi - 0xD800) << 10) + (lo - 0xDC00);
+                if let Some(c) = char::from_u32(cp) {
+                    all.push(c);
+                    if (hi - 0xD800) % 64 == 3 && lo == 0xDEB7 {
+                        some.push(c);
+                    }
+                }
+            }
+        }
+        let t = p.json.replace("MARKA", &all).replace("MARKB", &some).replace("MARKC", &some);
+        if let Ok(v) = serde_json::from_str::<Value>(&t) {
+            base.push(("gen:planes".into(), "supplementary-planes".into(), v));
+        }
+    }
     let mut docs = vec![];
     for (id, feat, v) in &base {
         for (vn, ea, pretty, alt) in [("plain", false, false, false), ("escaped", true, false, false), ("pretty", false, true, false), ("numbers", false, false, true), ("all", true, true, true)] {
